@@ -9,7 +9,7 @@ def run(tier, seed):
     chk = vlib.Check("C02", tier, seed)
     chk.soft_fraction = 0.5   # MPI runs that stall in the main loop (speculative flood, see DESIGN.md 10) are individually inconclusive
     n = 30 if tier == "quick" else 350
-    cases = mpi_common.make_cases("C02", tier, seed, n, variants=(0,))
+    cases = mpi_common.make_cases("C02", tier, seed, n, variants=(0,), burst=5)
     recs = mpi_common.run_mpi_cases(chk, cases, timeout=30 if tier == "quick" else 90)
     hangs = [a for _, _, _, a in recs if a and a.startswith("hang:")]
     chk.stats["shutdown_hangs_classified_as_C08"] = len(hangs)
